@@ -646,23 +646,23 @@ def carries_session_id_0(result, session_id):
     return d == session_id
 
 
-def carries_result_code_1(result, result_code):
-    d = result._avps[1]._data
+def carries_result_code_2(result, result_code):
+    d = result._avps[2]._data
     return d == be(result_code, 4)
 
 
-def carries_origin_host_3(result, origin_host):
-    d = result._avps[3]._data
+def carries_origin_host_4(result, origin_host):
+    d = result._avps[4]._data
     return d == origin_host.encode('utf-8')
 
 
-def carries_origin_realm_4(result, origin_realm):
-    d = result._avps[4]._data
+def carries_origin_realm_5(result, origin_realm):
+    d = result._avps[5]._data
     return d == origin_realm.encode('utf-8')
 
 
-def carries_route_record_5(result, route_record):
-    d = result._avps[5]._data
+def carries_route_record_6(result, route_record):
+    d = result._avps[6]._data
     return d == route_record.encode('utf-8')
 
 
